@@ -58,6 +58,7 @@ var respKinds = []string{
 	"receipt-not-a-receipt", "receipt-empty-out", "receipt-no-issuer", "receipt-bad-issuer", "receipt-empty-sig", "receipt-fx", "report-nil-value",
 	"root-not-message", "no-roots", "two-roots", "garbage", "empty-body", "truncated", "flipped",
 	"receipt-bad-issuer", "receipt-bad-issuer", "text-error", "text-error", "text-error", "receipt-short-sig", "receipt-short-sig", "huge-section", "huge-section", "report-null", "report-null", "http-cut", "http-cut", "http-cut", "links-to-non-ucan", "links-to-non-ucan", "identity-block", "identity-block", "big-aligned",
+	"mh-odd", "mh-odd", "mh-odd",
 }
 
 func genC15(cfg Config, emit Emit) error {
@@ -76,6 +77,7 @@ func genC15(cfg Config, emit Emit) error {
 			emit("resp", []string{k, itoa(st), itoa(cfg.Rng.Intn(1 << 30)), via}, k+"/"+via, true)
 		}
 	}
+	genClientExec2(emit)
 	return nil
 }
 
@@ -316,6 +318,34 @@ func respBody(kind string, r *rand.Rand) ([]byte, []ipld.Link) {
 		bl = append(bl, block.NewBlock(cidlink.Link{Cid: cid.NewCidV1(0x55, hp)}, pad), rawCborBlock([]byte{0x18, 0x63}), rawCborBlock([]byte{0x18, 0x64}))
 		body := carOf([]ipld.Link{m.Root().Link()}, bl)
 		expectBlocks = len(bl)
+		return body, lookups
+	case "mh-odd":
+		// a good response followed by a section whose CID announces sha2-256 (or another registered code) with a
+		// digest that is longer / shorter than the function's, or of length zero
+		rc := normalRcpt()
+		m := mkMsg([]receipt.AnyReceipt{rc})
+		var bl []ipld.Block
+		for b, err := range m.Blocks() {
+			if err == nil {
+				bl = append(bl, b)
+			}
+		}
+		body := carOf([]ipld.Link{m.Root().Link()}, bl)
+		data := []byte{0x18, 0x63}
+		full, _ := mh.Sum(data, mh.SHA2_256, -1)
+		dg := full[2:] // the 32 digest bytes
+		code := []uint64{mh.SHA2_256, mh.SHA2_256, mh.SHA2_512, mh.SHA1}[r.Intn(4)]
+		n := []int{33, 40, 64, 127, 20, 0, 31}[r.Intn(7)]
+		digest := make([]byte, n)
+		copy(digest, dg)
+		var c []byte
+		c = append(c, 0x01, 0x55)
+		c = appendUvarint(c, code)
+		c = appendUvarint(c, uint64(n))
+		c = append(c, digest...)
+		body = appendUvarint(body, uint64(len(c)+len(data)))
+		body = append(body, c...)
+		body = append(body, data...)
 		return body, lookups
 	case "http-cut":
 		// a good response of several blocks whose transmission stops exactly at a section boundary
@@ -581,4 +611,12 @@ func nodeKind(n ipld.Node) datamodel.Kind {
 func metaVal() *int64 {
 	x := int64(3)
 	return &x
+}
+
+func appendUvarint(b []byte, v uint64) []byte {
+	for v >= 0x80 {
+		b = append(b, byte(v)|0x80)
+		v >>= 7
+	}
+	return append(b, byte(v))
 }
